@@ -289,8 +289,19 @@ func runSingle(in Sx) Sx {
 		}
 		rres = append(rres, List(Int(int64(d.pn)), Int(int64(d.kind)), res, Int(int64(d.consumed)), Int(int64(d.wanted)), Int(int64(d.maxcap)), Int(int64(d.retcap)), Int(int64(flag))))
 	}
+	// after whatever this stream did to the decoder: a good frame on a fresh stream still decodes
+	// (the codec keeps no state between calls)
+	after := 1
+	if fmtc != 3 {
+		good := craft(fmtc, 1, 0, 0, 7, 8, 9, []byte("still fine"), -1, false)
+		q := packet.Make()
+		var gerr error
+		if p, _ := Catch(func() { gerr = NewEncoder(fmtc, 0).ReadPacket(NewChunkReader(good, nil), nil, q) }); p || gerr != nil || q.Cmd != 9 {
+			after = 0
+		}
+	}
 	dt, ut := tables(rec, unzipT)
-	return List(dt, ut, ListOf(rres))
+	return List(dt, ut, ListOf(rres), Int(int64(after)))
 }
 
 func flipBit(frame []byte, i int) []byte {
